@@ -570,7 +570,13 @@ func (x *Interp) repeat(fr *frame, st *Stmt) {
 		actions[""] = func(at *rapid.T) { x.runInv(fr, st, at) }
 	}
 	if st.SM != "" {
-		actions = smActions(st.SM, actions)
+		for _, name := range []string{"a0", "a1", "a2", "a3"} {
+			if actions[name] == nil {
+				a := &Action{Name: name}
+				actions[name] = func(at *rapid.T) { x.runAction(fr, a, at) }
+			}
+		}
+		actions = smActions(st.SM, actions, func(name string) { x.ev(Event{K: "bogus", Name: name}) })
 	}
 	t.Repeat(actions)
 }
